@@ -42,7 +42,7 @@ HitOutcome(hit, r) ==
     ELSE CASE NeProto(r) = "alleq"       -> "miss"     \* __ne__ is falsy: looks absent
            [] NeProto(r) = "elementwise" -> "raise"    \* bool(non-boolean) raises
            [] OTHER                      -> "hit"
-IsErr(r) == r.rk = "err"
+ResErr(r) == r.rk = "err"
 
 RECURSIVE CRecH(_, _, _, _, _, _, _)
 CRecH(keyMode, storeMode, hit, st, mk, e, a) ==
@@ -56,14 +56,14 @@ CRecH(keyMode, storeMode, hit, st, mk, e, a) ==
              ks == RecKids(mk, e)
              RECURSIVE Go(_, _, _)
              Go(s, i, rs) ==
-                 IF i > Len(ks) \/ (Len(rs) > 0 /\ IsErr(rs[Len(rs)])) THEN [s |-> s, rs |-> rs]
+                 IF i > Len(ks) \/ (Len(rs) > 0 /\ ResErr(rs[Len(rs)])) THEN [s |-> s, rs |-> rs]
                  ELSE LET x == CRecH(keyMode, storeMode, hit, s, mk, ks[i], a) IN
                       Go([tab |-> x.tab, evs |-> x.evs], i + 1, Append(rs, x.r))
              s0 == [tab |-> st.tab,
                     evs |-> IF InScope(mk, e) THEN Append(st.evs, [ev |-> "H", k |-> k])
                             ELSE st.evs]
              g  == Go(s0, 1, << >>)
-             bad == Len(g.rs) > 0 /\ IsErr(g.rs[Len(g.rs)])
+             bad == Len(g.rs) > 0 /\ ResErr(g.rs[Len(g.rs)])
              r  == IF bad THEN g.rs[Len(g.rs)] ELSE Combine(mk, e, a, g.rs)
          IN [tab |-> IF InScope(mk, e) /\ storeMode = "store" /\ ~bad THEN (ik :> r) @@ g.s.tab
                      ELSE g.s.tab,
